@@ -11,6 +11,7 @@ from __future__ import annotations
 
 import ast
 import itertools
+from fractions import Fraction
 import math
 import pickle
 
@@ -478,7 +479,104 @@ def check_tofunc(spec):
     return res
 
 
-CHECKS = {"compile": check_compile, "toast": check_toast, "tofunc": check_tofunc}
+# {{{ compile() of Polynomial nodes (the compile mapper prints them in Horner form)
+
+POLY_CTX = ("bare", "square", "quotient-den", "quotient-num", "product", "exponent", "sum",
+            "negated", "power-base-3")
+
+
+def _poly_value(base_v, data_v):
+    return sum(c * base_v ** e for e, c in data_v)
+
+
+def check_compile_poly(spec):
+    """spec: {"base": expr spec, "data": [[exp, coeff spec], ...], "ctx": one of POLY_CTX}
+    The polynomial sum_i coeff_i * base**exp_i sits in a small context; compile() of the
+    whole must agree with the value computed from the parts."""
+    from pymbolic.polynomial import Polynomial
+    from pbt.spec import HarnessError
+    res = Result()
+    data = spec.get("data")
+    if not isinstance(data, list) or not data or not all(
+            isinstance(t, list) and len(t) == 2 and isinstance(t[0], int)
+            and not isinstance(t[0], bool) and 0 <= t[0] <= 6 for t in data) \
+            or [t[0] for t in data] != sorted({t[0] for t in data}) \
+            or spec.get("ctx") not in POLY_CTX:
+        raise HarnessError("bad polynomial spec")
+    base = build(spec["base"])
+    coeffs = [(e, build(c)) for e, c in data]
+    if not isinstance(base, p.Expression):
+        raise HarnessError("polynomial base must be an expression")
+    try:
+        poly = Polynomial(base, tuple(coeffs))
+    except Exception as exc:
+        return res.skip("polynomial-constructor-refuses:" + type(exc).__name__)
+    ctx = spec["ctx"]
+    wrap = {"bare": lambda q: q, "square": lambda q: p.Power(q, 2),
+            "quotient-den": lambda q: p.Quotient(1, q), "quotient-num": lambda q: p.Quotient(q, 3),
+            "product": lambda q: p.Product((2, q)), "exponent": lambda q: p.Power(2, q),
+            "sum": lambda q: p.Sum((q, 1)), "negated": lambda q: p.Product((-1, q)),
+            "power-base-3": lambda q: p.Power(q, 3)}[ctx]
+    refw = {"bare": lambda v: v, "square": lambda v: v ** 2,
+            "quotient-den": lambda v: Fraction(1) / v, "quotient-num": lambda v: v / Fraction(3),
+            "product": lambda v: 2 * v, "exponent": lambda v: 2 ** v,
+            "sum": lambda v: v + 1, "negated": lambda v: -v,
+            "power-base-3": lambda v: v ** 3}[ctx]
+    e = wrap(poly)
+    res.label("poly-ctx:" + ctx, f"poly-terms:{min(len(coeffs), 3)}")
+    names = set()
+    for part in (base, *[c for _, c in coeffs]):
+        names |= walk.variables(part)
+    order = sorted(names)
+    try:
+        c = pymbolic.compile(e)
+    except Exception as exc:
+        return res.fail("compile-poly:construction-raised:" + exc_site(exc),
+                        f"compile({e!r}) raised {type(exc).__name__}: {exc}")
+    for env_spec in _fractionize(env_box(names))[:16]:
+        env = envs.build_env(env_spec)
+        try:
+            bv = ref_eval(base, env)
+            cvs = [(ex, ref_eval(cf, env)) for ex, cf in coeffs]
+        except RefSkip:
+            continue
+        if bv[0] != "val" or any(cv[0] != "val" for _, cv in cvs):
+            continue
+        try:
+            pv = _poly_value(bv[1], [(ex, cv[1]) for ex, cv in cvs])
+            if ctx == "exponent" and not (isinstance(pv, (int, Fraction))
+                                          and pv.denominator == 1 and abs(pv) <= 64):
+                continue        # 2**<huge or fractional>: not what this sub-check is about
+            if isinstance(pv, (int, Fraction)) and abs(pv) > 10 ** 30:
+                continue
+            want = refw(pv)
+        except (ZeroDivisionError, OverflowError, TypeError, ValueError):
+            continue
+        if isinstance(want, int) and want.bit_length() > 4000:
+            continue
+        res.compared()
+        small = {k: v for k, v in env_spec.items() if k in names}
+        try:
+            got = c(*[env[n] for n in order])
+        except Exception as exc:
+            res.fail("compile-poly:raises:" + type(exc).__name__,
+                     f"{e!r} at {small}: {type(exc).__name__}: {exc}; expected {describe(want)}")
+            break
+        if not values_close(got, want):
+            res.fail("compile-poly:value-mismatch:" + ctx + (
+                ":single-term" if len(coeffs) == 1 else ""),
+                f"{e!r} at {small}: compiled code gives {describe(got)}, the polynomial's "
+                f"value in this context is {describe(want)}")
+            break
+    res.nontrivial = ctx != "bare"
+    res.sample = {"expr": repr(e)[:300]}
+    return res
+
+# }}}
+
+
+CHECKS = {"compile": check_compile, "toast": check_toast, "tofunc": check_tofunc,
+          "compile-poly": check_compile_poly}
 
 
 @st.composite
@@ -555,7 +653,21 @@ def ast_case(draw):
     return {"expr": s, "twin": tw} if tw else {"expr": s}
 
 
+@st.composite
+def poly_case(draw):
+    base = draw(st.sampled_from((["Var", "x"], ["Var", "y"], ["Sum", [["Var", "x"], ["Const", "int", 1]]],
+                                 ["Product", [["Const", "int", 2], ["Var", "y"]]])))
+    exps = sorted(draw(st.lists(st.integers(0, 4), min_size=1, max_size=3, unique=True)))
+    coeff = lambda: draw(st.sampled_from((  # noqa: E731
+        ["Const", "int", 3], ["Const", "int", -1], ["Const", "int", 2], ["Var", "z"],
+        ["Sum", [["Var", "z"], ["Const", "int", 1]]], ["Const", "int", 1], ["Var", "k"])))
+    return {"base": base, "data": [[e, coeff()] for e in exps],
+            "ctx": draw(st.sampled_from(POLY_CTX))}
+
+
 def generate(ctx):
+    ctx.run_given(poly_case(), lambda s: ctx.judge("compile-poly", s), ctx.n(600, 12000))
+
     def jc(s):
         r = ctx.judge("compile", s)
         ctx.extra["programs"] += 1
